@@ -94,7 +94,16 @@ def cauchy_geometry(const, grad, curv, xl, xu, delta, debug):
         delta,
         debug,
     )
-    step = step1 if abs(q_val1) >= abs(q_val2) else step2
+    # The first step increases the value of the quadratic function and the
+    # second one decreases it. When both values have the same magnitude in
+    # floating-point arithmetic (the improvements may be too small to be
+    # seen), select the step that moves the value away from zero.
+    if abs(q_val1) > abs(q_val2) or (
+        abs(q_val1) == abs(q_val2) and const >= 0.0
+    ):
+        step = step1
+    else:
+        step = step2
 
     if debug:
         assert np.all(xl <= step)
